@@ -43,7 +43,6 @@ func (p *Program) userFieldSort(name string) (string, bool) {
 	return s, ok
 }
 
-func (v *Verifier) addLemmas(verifDir string) {}
 func (v *Verifier) addSweeps() {
 	switch v.Prop {
 	case "C20":
